@@ -27,6 +27,23 @@ def main(chk: core.Check, replay):
         chk.violation(sig, b, f"{b['tag']} (shape {b.get('shape')}, dependency depth {b.get('depth')}): "
                       + str({k: v for k, v in b.items() if k not in ('text', 'tag', 'shape', 'depth')})[:200])
     chk.sample({"model_text": modelcase.render_text(recs[0]["blocks"]), "expected": recs[0]["cases"][0]})
+    # structural models (unused intermediates, components, several parameters): row i of rhs_matrix is the rate of the
+    # state that states_matrix - and the generated code - put at position i, with the specification's value
+    from . import structural
+    r1 = structural.run_tlc_struct(chk, ["C01_RhsRefinesDen"], 1 if chk.tier == "quick" else 2, 37 if chk.tier == "quick" else 211)
+    chk.add_tlc(r1)
+    srecs = r1.records
+    r1.records = []
+    if not srecs:
+        raise core.MachineryFailure("MC_Struct emitted no model")
+    st2, bad2 = symcase.replay_struct(srecs, chk.nproc)
+    chk.replayed += st2["models"]
+    chk.extra["symbolic_structural_corpus"] = {**st2, "mismatch_records": len(bad2)}
+    if st2["compared"] == 0:
+        raise core.MachineryFailure("structural symbolic corpus: nothing compared")
+    for b in bad2:
+        sig = f"C20:{b['tag']}:{b.get('exception', b.get('name', ''))}:structural:model={structural.model_sig(b.get('text', ''))}"
+        chk.violation(sig, b, f"{b['tag']} (structural model): " + str({k: v for k, v in b.items() if k not in ('text', 'tag', 'shape', 'depth')})[:200])
 
 
 if __name__ == "__main__":
